@@ -240,6 +240,7 @@ def use_rules(r, R):
                          "options.%s is formatted into an intermediate string %r" % (field, fmt.template_s(pieces)), site=cs, key=key + "display|intermediate")
                     if ok:
                         _serde_name_uses(r, R, owner[1])
+                        _serde_local_name(r, R, args[1][1], owner[1])
             else:
                 r.ob("R10.2.option-use", "%s: options.%s" % (fn, field), False, "options.%s is handed to `%s`" % (field, nm), site=cs, key=key + "call|%s" % nm)
         if not consumers:
@@ -339,9 +340,12 @@ def _format_owner(R, display_site):
 def _arg_sites(value_term, display_site):
     """is display_site one of the *direct* Argument::new_display calls of this format value?"""
     t = strip(value_term, mir.TRANSPARENT_CALLS + ("std::hint::must_use",))
-    if not (t[0] == "call" and t[1] == "std::fmt::format" and t[2]):
+    if t[0] == "call" and t[1] == "std::fmt::Arguments::new":
+        a = t            # write!/writeln! onto the accumulator: the emission's value is the Arguments itself
+    elif t[0] == "call" and t[1] == "std::fmt::format" and t[2]:
+        a = strip(t[2][0])
+    else:
         return False
-    a = strip(t[2][0])
     if not (a[0] == "call" and a[1] == "std::fmt::Arguments::new" and len(a[2]) == 2):
         return False
     arr = strip(a[2][1])
@@ -365,6 +369,47 @@ def _is_field_of_options(t, field):
     fs = [e for e in t[2] if e != "*" and e[0] == "f"]
     # directly through the parameter, or through a context struct / a local copy of the reference
     return bool(fs) and fs[-1][3] == field and fs[-1][1] == "options::Options" and t[1][0] in ("arg", "local", "proj")
+
+
+def _serde_local_name(r, R, t, format_site):
+    """R10.7: the name an attribute is bound to (after the prefix) is the real XML name exactly when the crate's
+    namespace-declaration predicate holds for it, and remove_namespace(real name) otherwise"""
+    from .pm import guards_of
+    b = R.body
+    fn = b.name
+    t = strip(t, mir.VALUE_PRESERVING)
+    alts = []     # (value term, guards)
+    if t[0] == "local":
+        for d in b.defs().get(t[1], []):
+            if d.si is None:
+                v = ("call", cname(d.node), [term_of(b, a) for a in d.node["args"]], d)
+            elif d.node["k"] == "assign" and d.node["rv"]["k"] == "use" and not d.node["place"]["p"]:
+                v = term_of(b, d.node["rv"]["op"])
+            else:
+                continue
+            alts.append((strip(v, mir.VALUE_PRESERVING), guards_of(b, d.bb, within=R.attr_loop["blocks"])))
+    else:
+        alts.append((t, guards_of(b, format_site.bb, within=R.attr_loop["blocks"])))
+    seen = {}
+    problems = []
+    for v, g in alts:
+        preds = [x for x in g if x[0] == "call" and b.crate.bodies.get(x[4].node["callee"].get("path")) is not None and
+                 b.crate.fns.get(x[4].node["callee"].get("path"), {}).get("output", {}).get("prim") == "bool"] if g else []
+        shortened = v[0] == "call" and v[1].endswith("ConvertString::remove_namespace")
+        real = strip(v[2][0], mir.VALUE_PRESERVING) if shortened else v
+        if len(preds) != 1:
+            problems.append("an alternative of the bound name is not selected by the namespace predicate alone (%d tests)" % len(preds))
+            continue
+        p = preds[0]
+        parg = strip(p[2][0], mir.VALUE_PRESERVING) if p[2] else ("x",)
+        if not mir.same_place_term(parg, real):
+            problems.append("the predicate is asked about a different name than the one that is bound")
+        if shortened == p[3]:
+            problems.append("the %s name is bound when the namespace-declaration predicate is %s" % ("shortened" if shortened else "full", p[3]))
+        seen[shortened] = True
+    ok = not problems and seen.get(True) and seen.get(False)
+    r.ob("R10.7.bound-attribute-name", fn, bool(ok), "bound name = full name for namespace declarations, remove_namespace(name) for every other attribute" if ok else
+         ("; ".join(problems) or "the bound attribute name does not have the two alternatives full / shortened"), site=format_site, key="R10.7|bound-name")
 
 
 def _serde_name_uses(r, R, format_site):
